@@ -188,6 +188,20 @@ def all_depth1() -> List[dict]:
     for a in small:
       for b in small:
         out.append(E(o, args=[a, b]))
+  # operands that hand their input list through by identity (Identity, a conditional whose branch is not
+  # taken) in first and in second position: the composition must not write into the caller's population
+  passthrough = [E('identity'), E('if_true', thr=9, args=[E('first', n=1)]), E('if_false', thr=-1, args=[E('first', n=1)]),
+                 E('power', k=0, args=[E('top', n=1)])]
+  others = [E('top', n=1), E('last', n=2), E('repeat', k=2, args=[E('first', n=1)]), E('identity')]
+  for o in BINOPS:
+    for a in passthrough:
+      for b in others:
+        out.append(E(o, args=[a, b]))
+        out.append(E(o, args=[b, a]))
+  for a in passthrough:
+    out.append(E('repeat', k=2, args=[a]))
+    out.append(E('dup_each', args=[a]))
+    out.append(E('concat', args=[E('concat', args=[a, E('top', n=1)]), E('bottom', n=1)]))
   return out
 
 
@@ -317,6 +331,13 @@ def mixed_exprs():
       ('Top(1) >> mutators.Uniform().until_change(3)', 'mutators.Uniform',
        lambda s: S.Top(1) >> M.Uniform(seed=s).until_change(3)),
       ('Top(2) >> mutators.Swap()', 'mutators.Swap', lambda s: S.Top(2) >> M.Swap(seed=s)),
+      # first operand passes the population through (elitism pattern / operation applied with probability 0)
+      ('Identity + (Top(1) >> mutators.Uniform())', 'mutators.Uniform', lambda s: evo.Identity() + (S.Top(1) >> M.Uniform(seed=s))),
+      ('First(1).with_prob(0.0) + Top(1)', 'selectors.First', lambda s: S.First(1).with_prob(0.0, seed=s) + S.Top(1)),
+      ('mutators.Uniform().with_prob(0.0) + mutators.Uniform()', 'mutators.Uniform',
+       lambda s: M.Uniform(seed=s).with_prob(0.0, seed=s) + M.Uniform(seed=s)),
+      ('Top(1).if_true(len>9) + (Last(1) >> mutators.Uniform())', 'mutators.Uniform',
+       lambda s: S.Top(1).if_true(lambda x: len(x) > 9) + (S.Last(1) >> M.Uniform(seed=s))),
   ]
 
 
@@ -350,7 +371,15 @@ def _apply(op, inputs, limit: float = 10.0):
 def record_event(space: SpaceC, inputs: List[pg.DNA], in_ids: List[int], fits: List[int], label: str, cls: str,
                  kind: str, factory, seed: int, expr: Optional[dict] = None, det: bool = False,
                  count: int = -1, submulti: bool = False, cache: Optional[dict] = None) -> dict:
-  before = [space.nested(d)[0] for d in inputs]
+  """Applies the operator (twice: fresh instance, same seed) to the population list `inputs`.
+
+  `inputs` is the caller's list OBJECT and is handed to the operator as it is, both times; the event logs what
+  that list contains afterwards (identity + decisions of every member, whatever its length now is), so a
+  population that grew, shrank, was reordered or had members replaced fails InputsUnchanged, and the second
+  run sees the corrupted population (SeedDeterministic / Exact).  The list is restored before returning.
+  """
+  orig = list(inputs)                      # snapshot: the member objects, in order
+  before = [space.nested(d)[0] for d in orig]
   cache = cache if cache is not None else {}
 
   def facts(o):
@@ -368,10 +397,20 @@ def record_event(space: SpaceC, inputs: List[pg.DNA], in_ids: List[int], fits: L
     return f
 
   def ident(o):
-    for i, d in enumerate(inputs):
+    for i, d in enumerate(orig):
       if d is o:
         return in_ids[i]
     return 0
+
+  def content(lst):
+    """The population list as it is now: [{id, dna}] (id 0 = not one of the original members)."""
+    res = []
+    for o in list(lst):
+      if isinstance(o, pg.DNA):
+        res.append(dict(id=ident(o), dna=space.nested(o)[0]))
+      else:
+        res.append(dict(id=0, dna=[]))
+    return res
 
   def describe(outs, full):
     res = []
@@ -388,9 +427,14 @@ def record_event(space: SpaceC, inputs: List[pg.DNA], in_ids: List[int], fits: L
 
   out1, raised = _apply(factory(seed), inputs)
   d1 = describe(out1, True)
-  after = [space.nested(d)[0] for d in inputs]
+  after = content(inputs)
   out2, raised2 = _apply(factory(seed), inputs)
   d2 = describe(out2, False)
+  after2 = content(inputs)
+  if len(after2) != len(orig) or any(a is not b for a, b in zip(list(inputs), orig)):
+    if [x['id'] for x in after] == list(in_ids) and [x['dna'] for x in after] == before:
+      after = after2                       # only the second application corrupted the population
+    inputs[:] = orig                       # later events start from the original population again
   return dict(op=label, cls=cls, kind=kind, det=det, expr=expr or dict(BLANK, op='opaque'), seed=seed,
               **{'in': [dict(id=i, dna=b, fit=f) for i, b, f in zip(in_ids, before, fits)]},
               in_after=after, out=d1, out2=d2, count=count, submulti=submulti,
@@ -434,17 +478,20 @@ def record_space(args) -> List[dict]:
       continue
     ev = []
     ln = len(dnas)
+    pair = dnas[:2]
     cache: Dict[Any, Any] = {}
     for s in range(n_seeds):
       sd = seed * 100 + s
       for label, cls, kind, factory, minp, exact in catalogue(thorough):
         if ln < minp:
           continue
+        # the same list objects are handed to consecutive applications (`dnas`, or `pair` for 2-parent operators)
         sub = slice(0, exact) if exact else slice(0, ln)
-        ev.append(record_event(space, dnas[sub], ids[sub], fits[sub], label, cls, kind, factory, sd, cache=cache))
+        plist = pair if exact == 2 else dnas
+        ev.append(record_event(space, plist, ids[sub], fits[sub], label, cls, kind, factory, sd, cache=cache))
         if 'where=ANY' in label:     # which decision point is crossed depends on the seed: try a few more
           for extra in range(1, 5):
-            ev.append(record_event(space, dnas[sub], ids[sub], fits[sub], label, cls, kind, factory, sd + 10 * extra,
+            ev.append(record_event(space, plist, ids[sub], fits[sub], label, cls, kind, factory, sd + 10 * extra,
                                    cache=cache))
       for label, cls, factory, cnt, submulti, nonempty in random_selectors():
         ev.append(record_event(space, dnas, ids, fits, label, cls, 'selector', factory, sd, count=cnt(ln), submulti=submulti, cache=cache))
